@@ -74,6 +74,10 @@ def known_findings(prop):
     return out
 
 
+import threading
+_NAME_LOCK = threading.Lock()
+
+
 class Ctx:
     def __init__(self, prop, tier, seed, level):
         self.prop = prop
@@ -96,6 +100,7 @@ class Ctx:
         }
         self.assumptions = []
         self._keys = None
+        self._tlc_names = set()
 
     # ------------------------------------------------------------------ building
     def build(self):
@@ -191,6 +196,13 @@ class Ctx:
         """run TLC on spec/<module>.tla with spec/<cfg>; returns dict with parsed statistics and
         the path of the raw output"""
         name = name or "%s-%d" % (module, time.time_ns() % 10**9)
+        # two runs in flight must never share an output file or a metadir
+        with _NAME_LOCK:
+            base, k = name, 1
+            while name in self._tlc_names:
+                k += 1
+                name = "%s~%d" % (base, k)
+            self._tlc_names.add(name)
         out_path = os.path.join(self.work, name + ".tlc.out")
         meta = os.path.join(self.work, name + ".meta")
         jopts = ["-Xss1g" if workers == 1 else "-Xss256m"]
